@@ -26,6 +26,12 @@ RULE = ("bond graphs without self-loops and without 3-membered rings in which ev
         "ndarray / numpy-integer tuples; term lists through the Atoms constructor, as python lists of tuples or lists, or "
         "as an ndarray set on the object; UFF types as list / tuple / ndarray; exclusion as set / frozenset / set of "
         "numpy integers (also on empty term lists); diatomic and empty bond lists; Du and Lw6+3 in the typing pools. "
+        "Whether a dihedral must be kept is decided by the documented UFF rule written down independently of the code "
+        "(both centres sp3/sp2/resonant by their label character -> defined, whatever the element; else sp centre -> none; "
+        "else non-main-group centre -> none; else unsupported), not by calling dihedral_params; that rule is compared with "
+        "the real function and with the Lean torsion case analysis for every table type as a centre against 14 partners "
+        "(quick) / all 221 x 221 centre pairs (thorough). ZIF-like (Zn3+2/Zn3f2/Cu3f2/Ti3+4... with N_R rings) and "
+        "paddlewheel-like nodes are generated. "
         "Thorough: additionally EVERY triangle-free graph on <= 6 labelled vertices with all degrees >= 1. "
         "Non-trivial = distinct input whose graph has a branch (degree >= 3) or a ring.")
 
@@ -35,8 +41,8 @@ PLURAL = {"bond": "bonds", "angle": "angles", "dihedral": "dihedrals"}
 TERMINAL = ["H_", "H_", "H_", "F_", "Cl", "Br", "O_1", "O_2", "N_1"]
 CHAIN2 = ["O_3", "O_R", "O_2", "N_2", "N_R", "C_1", "C_1", "N_1", "S_3+2", "O_3_z", "S_R", "C_2"]
 BRANCH3 = ["C_R", "C_2", "N_3", "N_R", "B_2", "C_R", "P_3+3", "O_3_z", "N_2"]
-BRANCH4 = ["C_3", "C_3", "N_3", "Si3", "P_3+5", "S_3+6", "Zn3+2", "B_3"]
-METAL = ["Zr3+4", "Zr8f4", "Cu4+2", "Cu3f2", "Zn4+2", "Fe6+3", "Al6+3", "Ti6+4", "Zn3f2", "Mg6"]
+BRANCH4 = ["C_3", "C_3", "N_3", "Si3", "P_3+5", "S_3+6", "Zn3+2", "B_3", "Zn3f2", "Ti3+4"]
+METAL = ["Zr3+4", "Zr8f4", "Cu4+2", "Cu3f2", "Zn4+2", "Fe6+3", "Al6+3", "Ti6+4", "Zn3f2", "Mg6", "Zn3+2", "Ti3+4"]
 FRIENDLY = sorted(set(TERMINAL + CHAIN2 + BRANCH3 + BRANCH4 + METAL))
 
 
@@ -236,6 +242,72 @@ def g_aromatic(rng):
     for a in range(n):
         types[p[a]] = uff[a]
     return edges, types
+
+
+TET_METALS = ["Zn3+2", "Zn3f2", "Cu3f2", "Ti3+4", "Co3+2", "Fe3+2", "Zr3+4", "Cu2f2", "Zn2f2", "Ag2f2", "Cd3+2", "Mn3f2"]
+
+
+def _relabel(rng, edges, uff):
+    n = len(uff)
+    p = list(range(n))
+    rng.shuffle(p)
+    edges = sorted(set(norm((p[a], p[b])) for a, b in edges))
+    types = [None] * n
+    for a in range(n):
+        types[p[a]] = uff[a]
+    return edges, types
+
+
+def g_zif(rng):
+    """ZIF-like node: a tetrahedral metal whose UFF label has hybridisation character '3' or '2' (Zn3+2, Zn3f2, Cu3f2,
+    Ti3+4, ...) bonded to 2-4 ring nitrogens N_R, each carrying two C_R with a hydrogen; optionally two metals bridged by
+    an imidazolate N_R-C_R-N_R.  The metal sits in the MIDDLE of chains C_R-N_R-M-N_R."""
+    edges, uff = [], []
+
+    def add(ty, to=None):
+        uff.append(ty)
+        if to is not None:
+            edges.append((to, len(uff) - 1))
+        return len(uff) - 1
+    m = add(rng.choice(TET_METALS))
+    for _ in range(rng.randint(2, 4)):
+        nn = add("N_R", m)
+        for _ in range(2):
+            c = add(rng.choice(["C_R", "C_R", "C_2"]), nn)
+            add("H_", c)
+    if rng.random() < 0.5:
+        n1 = add("N_R", m)
+        c = add("C_R", n1)
+        add("H_", c)
+        n2 = add("N_R", c)
+        m2 = add(rng.choice(TET_METALS), n2)
+        add(rng.choice(["O_3", "N_R", "O_2"]), m2)
+    return _relabel(rng, edges, uff)
+
+
+def g_paddlewheel(rng):
+    """paddlewheel-like node: two metals (labels with a '3'/'2' character or the usual Cu4+2) joined to each other and
+    bridged by 2-4 carboxylates O_2-C_R(-C_R)-O_2 (five-membered rings M-O-C-O-M, no three-membered ring)"""
+    edges, uff = [], []
+
+    def add(ty, to=None):
+        uff.append(ty)
+        if to is not None:
+            edges.append((to, len(uff) - 1))
+        return len(uff) - 1
+    ty = rng.choice(TET_METALS + ["Cu4+2"])
+    m1 = add(ty)
+    m2 = add(ty if rng.random() < 0.7 else rng.choice(TET_METALS), m1)
+    for _ in range(rng.randint(2, 4)):
+        o1 = add("O_2", m1)
+        c = add("C_R", o1)
+        o2 = add("O_2", c)
+        edges.append((o2, m2))
+        if rng.random() < 0.6:
+            add(rng.choice(["C_R", "C_3", "H_"]), c)
+    if rng.random() < 0.5:
+        add(rng.choice(["O_3", "N_R"]), m1)
+    return _relabel(rng, edges, uff)
 
 
 def listing(rng, edges, dup=None):
@@ -603,6 +675,58 @@ def oracle_enum_invariance(kind, got1, got2):
     return None
 
 
+_MAIN = None
+
+
+def main_group():
+    """MAIN_GROUP_ELEMENTS read from the SOURCE TEXT of the repo under test (own reader, not an import of the code)"""
+    global _MAIN
+    if _MAIN is None:
+        from .. import gen_tables
+        _MAIN = set(gen_tables.read_tables()["maingroup"])
+    return _MAIN
+
+
+def torsion_rule(a1, a2, a3, a4):
+    """whether UFF defines a torsion about the central bond a2-a3, decided from the documented rule alone, with the
+    cases in their documented ORDER (Rappe et al. 1992 sec. II.E as the code's comments restate it):
+      1. both centres sp3 (third character '3')                        -> defined (eq. 16; group-6 exception)
+      2. both centres sp2 / resonant ('2', 'R')                        -> defined (eq. 17)
+      3. one centre sp2/resonant, the other sp3                        -> defined (mixed cases)
+      4. otherwise, a centre that is sp-hybridised ('1')               -> NO torsion
+      5. otherwise, a centre that is not a main-group element          -> NO torsion
+      6. otherwise                                                     -> not handled (the code raises)
+    The hybridisation is the third character of the type label whatever the element (Zn3+2 is a '3' centre).
+    Returns 'defined' | 'undefined' | 'unsupported'."""
+    h2 = a2[2] if len(a2) > 2 else None
+    h3 = a3[2] if len(a3) > 2 else None
+    e2 = "".join(ch for ch in a2[:2] if ch != "_")
+    e3 = "".join(ch for ch in a3[:2] if ch != "_")
+    if h2 in ("3", "2", "R") and h3 in ("3", "2", "R"):
+        return "defined"
+    if h2 == "1" or h3 == "1":
+        return "undefined"
+    if e2 not in main_group() or e3 not in main_group():
+        return "undefined"
+    return "unsupported"
+
+
+def real_torsion_defined(seq, m=1):
+    """the same three-way outcome from the real dihedral_params (fresh explicit arguments)"""
+    t = fresh_text("dihedral", list(seq), m)
+    return "unsupported" if t is False else "undefined" if t is None else "defined"
+
+
+def oracle_torsion_defined(seq):
+    want = torsion_rule(*seq)
+    got = real_torsion_defined(seq)
+    got_rev = real_torsion_defined(list(seq)[::-1])
+    if got != want or got_rev != want:
+        return ("torsion %s: the documented rule says %s, dihedral_params says %s (reversed sequence: %s)"
+                % (" ".join(seq), want, got, got_rev))
+    return None
+
+
 def expected_kept(kind, terms, uff, exclude):
     """(kept terms in input order, their (sequence, multiplicity), unsupported?) by the property's own words"""
     ar = ARITY[kind]
@@ -615,11 +739,11 @@ def expected_kept(kind, terms, uff, exclude):
         seq = [uff[a] for a in t]
         if kind == "dihedral":
             m = mult[central(t)]
-            txt = key_text(kind, seq, m)
-            if txt is False:
+            rule = torsion_rule(*seq)      # INDEPENDENT of the code's case analysis (documented rule, documented order)
+            if rule == "unsupported":
                 unsupported = True
                 continue
-            if txt is None:
+            if rule == "undefined":
                 continue
             kept.append((tuple(t), tuple(seq), m))
         else:
@@ -668,6 +792,9 @@ def oracle_assign(kind, terms, uff, exclude, r):
     for i, t in enumerate(got):
         _, seq, mu = info[t]
         ok = [key_text(kind, list(seq), mu), key_text(kind, list(seq)[::-1], mu)]
+        if kind == "dihedral" and not all(isinstance(x, str) for x in ok):
+            return ("dihedral %s (%s): UFF defines a torsion for this sequence but dihedral_params returns %r"
+                    % (list(t), " ".join(seq), ok))
         if r["coeffs"][r["types"][i]] not in ok:
             return ("%s %s (%s%s): coefficient text %r is not the text of the parameters of its sequence %r"
                     % (kind, list(t), " ".join(seq), "" if mu is None else " M=%d" % mu, r["coeffs"][r["types"][i]], ok[0]))
@@ -1018,7 +1145,7 @@ def graph_case(ctx, bt, edges, kind, typing=True, given_uff=None):
     check_retype(ctx, bt, uff, oracle=in_domain)
 
 
-SP_OR_METAL = ["C_1", "C_1", "N_1", "Zr3+4", "Cu4+2", "Zn4+2", "Fe6+3", "Ti6+4"]
+SP_OR_METAL = ["C_1", "C_1", "N_1", "Zr3+4", "Cu4+2", "Zn4+2", "Fe6+3", "Ti6+4", "Zn3+2", "Cu3f2"]
 ORDINARY = ["C_3", "C_3", "C_2", "C_R", "N_3", "O_3", "N_R", "C_2"]
 
 
@@ -1193,6 +1320,51 @@ def retype_cases(ctx, bt, count):
         check_retype(ctx, bt, shuffled)
 
 
+def torsion_defined_sweep(ctx, oracle_only):
+    """'is a torsion defined' for centre pairs: the documented rule vs the real dihedral_params (oracle) and vs the
+    torsion case analysis of the Lean model (Model/UffLogic.lean, op `torsion_case` of drivers/Uff.lean).
+    quick: every table type as a centre against 14 partner types (both positions); thorough: all 221 x 221 pairs."""
+    rng = ctx.rng
+    keys = table_keys()
+    partners = ["C_3", "C_R", "C_2", "N_R", "O_3", "O_2", "C_1", "N_1", "Zn3+2", "Cu3f2", "Ti3+4", "Cu4+2", "Al6+3", "H_"]
+    if ctx.tier == "thorough":
+        pairs = [(a, b) for a in keys for b in keys]
+    else:
+        pairs = [(a, b) for a in keys for b in partners] + [(b, a) for a in keys for b in partners]
+    ops, wants = [], []
+    for a2, a3 in pairs:
+        a1, a4 = (rng.choice(["C_3", "H_", "C_2", "N_R"]), rng.choice(["C_3", "H_", "C_2", "O_3"]))
+        seq = [a1, a2, a3, a4]
+        inp = {"op": "torsion_defined", "seq": seq}
+        ctx.case(inp, nontrivial=torsion_rule(*seq) != "unsupported")
+        want = torsion_rule(*seq)
+        ctx.count("torsion-rule:" + want)
+        if want == "defined" and (a2[:2].replace("_", "") not in main_group() or a3[:2].replace("_", "") not in main_group()):
+            ctx.count("torsion-rule:defined-with-a-metal-centre")
+        bad = oracle_torsion_defined(seq)
+        if bad:
+            ctx.fail(bad, inp, tags=["torsion-defined"])
+        ops.append({"op": "torsion_case", "a1": a1, "a2": a2, "a3": a3, "a4": a4})
+        wants.append(want)
+    if oracle_only:
+        return
+    lean = core.Lean("drivers/Uff.lean")
+    models = lean.run(ops)
+    ctx.lean.lines += len(ops)
+    for op, want, m in zip(ops, wants, models):
+        c = m.get("case", "?")
+        got = "undefined" if c == "undefined" else "unsupported" if c == "unsupported" else "defined"
+        ctx.compare("torsion_case", op, {"defined": want}, {"defined": got})
+
+
+def node_cases(ctx, bt, count):
+    """ZIF-like and paddlewheel-like metal nodes: torsions about M-N / M-O bonds of metals labelled as '3'/'2' centres"""
+    rng = ctx.rng
+    for i in range(count):
+        edges, types = (g_zif if i % 2 == 0 else g_paddlewheel)(rng)
+        graph_case(ctx, bt, edges, "zif-node" if i % 2 == 0 else "paddlewheel-node", given_uff=types)
+
+
 def typekey_cases(ctx, bt, count):
     rng = ctx.rng
     keys = table_keys()
@@ -1230,6 +1402,8 @@ def run(ctx, oracle_only=False):
     for _ in range(ctx.n(60, 600)):
         edges, types = g_aromatic(rng)
         graph_case(ctx, bt, edges, "aromatic", given_uff=types)
+    node_cases(ctx, bt, ctx.n(40, 400))
+    torsion_defined_sweep(ctx, oracle_only)
     # chains mixing torsion-less centres (sp, metals) with ordinary ones; dropped types listed before kept ones
     torsionless_cases(ctx, bt, ctx.n(60, 600))
     # diatomic and empty inputs: enumerations of shape (0,), assignment of empty term lists with an exclusion set
@@ -1343,6 +1517,8 @@ def replay(ctx, rec):
         k, terms, uff, ex = inp["kind"], inp["terms"], inp["uff"], inp["exclude"]
         ra, rb = real_assign_reordered(k, terms, uff, ex, inp["perm"])
         return oracle_reorder(k, terms, uff, ex, ra, rb) is None
+    if op == "torsion_defined":
+        return oracle_torsion_defined(inp["seq"]) is None
     if op == "param_sequence":
         return oracle_param_sequence(inp["kind"], [(tuple(sq), m) for sq, m in inp["keys"]]) is None
     if op == "retype":
